@@ -424,7 +424,10 @@ def wrap_probe(unwrap, tprobe, rootexpr):
 
 
 def render(ir):
-    out = [PRELUDE, 'import "gcm";']
+    # (the helper module is imported only by programs that use it: a loaded module holds every built-in class in its own
+    # globals, which would keep them alive when the main script rebinds their names)
+    uses_gcm = any(g[0] == "chain" and g[1] in ("module_attribute", "module_map_slot") for g in ir["gadgets"])
+    out = [PRELUDE] + (['import "gcm";'] if uses_gcm else [])
     for gi, g in enumerate(ir["gadgets"]):
         out += render_gadget(g, gi)
     out.append('print(("ev", "end", churn(3)));')
